@@ -119,6 +119,36 @@ def scopeExprs (visible : RefId → Bool) : List Expr → List Expr
   | e :: es => scopeExpr visible e :: scopeExprs visible es
 end
 
+/-! Cells that do not exist (deleted, not created yet).  `dead c = some byPath` says that no cells
+`c` exists and how the formula spells it: by global name (`NameError`) or through an attribute
+path `Ch.c` / `_space.parent.c` (`AttributeError`).  Python fails when it LOADS the callee, before
+any argument is evaluated: the call is made with no arguments (the model gives a missing cells
+arity 0), `evalNode` answers it with the error of an unbound name, and a spelling by path turns
+that into `AttributeError`. -/
+mutual
+def deadExpr (dead : CellId → Option Bool) : Expr → Expr
+  | .lit i => .lit i
+  | .none => .none
+  | .param i => .param i
+  | .add a b => .add (deadExpr dead a) (deadExpr dead b)
+  | .sub a b => .sub (deadExpr dead a) (deadExpr dead b)
+  | .mul a b => .mul (deadExpr dead a) (deadExpr dead b)
+  | .lt a b => .lt (deadExpr dead a) (deadExpr dead b)
+  | .ite c a b => .ite (deadExpr dead c) (deadExpr dead a) (deadExpr dead b)
+  | .call c args =>
+    match dead c with
+    | none => .call c (deadExprs dead args)
+    | some false => .call c []
+    | some true => .try_ (.call c []) (.user kName) (.raise kAttr)
+  | .readN r => .readN r
+  | .readA r => .readA r
+  | .raise k => .raise k
+  | .try_ a c b => .try_ (deadExpr dead a) c (deadExpr dead b)
+def deadExprs (dead : CellId → Option Bool) : List Expr → List Expr
+  | [] => []
+  | e :: es => deadExpr dead e :: deadExprs dead es
+end
+
 /-- formula of a cells whose body is `e`, applied to the key (arity already checked) -/
 def formulaOf (ar : CellId → Option Nat) (e : Expr) (key : Key) : Prog :=
   compile ar key e .ret (fun isNew e => if isNew then .raise e else .reraise e)
